@@ -206,6 +206,16 @@ TEXT = {
         "note": "Trusted: Lean kernel + standard axioms; serde_json/chrono/uuid exercised not modelled; decode/encode hook mirrors TaskDb::sync's two serde calls.",
         "technique": "Lean 4 proof (non-interference and shape by definition unfolding; string escape round trip by induction) + bidirectional correspondence check of encoder and decoder",
     },
+    "C17": {
+        "level": "PARTIAL. Lean theorems about the serial semantics: for every sequence of one-at-a-time successful transactions from any handles — commits of arbitrary "
+                 "batches, undos that still fit the end of the log, undos that no longer do — the stored tasks are the replay of the stored operations in stored order "
+                 "(ReplayInv preserved by C17_commit_step / C17_undo_step), the log is the committed batches in that order, each whole, none lost or duplicated "
+                 "(C17_serial_commits), an undo removes exactly its operations as one block, a stale undo changes nothing. That concurrent handles' transactions are "
+                 "serialised at all is SQLite's doing and is checked through these consequences on databases that 2-8 threads with their own handles worked on concurrently.",
+        "design_ref": "DESIGN.md §5 C17",
+        "note": "Trusted: Lean kernel + standard axioms; OS thread schedules (not controlled, not replayable); SQLite locking.",
+        "technique": "Lean 4 proof (replay invariant by induction over serial transaction histories) + audit-based correspondence check under real concurrency",
+    },
     "C13": {
         "level": "PARTIAL. Lean theorems about an independent RFC-level implementation of the documented scheme (SHA-256, HMAC, PBKDF2, ChaCha20, "
                  "Poly1305, the AEAD construction, the envelope): unseal∘seal = id for every key, 12-byte nonce, version id and payload; the "
